@@ -10,6 +10,7 @@ import (
 	"math/big"
 	"math/rand/v2"
 	"sort"
+	"strconv"
 	"strings"
 
 	"github.com/ohler55/slip"
@@ -38,7 +39,7 @@ func makeLiteralProbes() (ps []literalProbe) {
 	// decimal digits that are not digits of *read-base* (bases 2..9): alone, signed, mixed with in-base digits
 	for base := 2; base <= 9; base++ {
 		d := string(rune('0' + base))
-		ps = append(ps, literalProbe{base: base, dirty: "digits-outside-read-base",
+		ps = append(ps, literalProbe{base: base,
 			forms: []string{"=" + d, "=-" + d, "=(1" + d + " +" + d + "0 9)", "=10"}})
 	}
 	// letters around the edge of bases 11..35: last digit letter, first non-digit letter, float markers
@@ -55,19 +56,37 @@ func makeLiteralProbes() (ps []literalProbe) {
 				elems := append([]string{}, []string{"a", "b", "c", "d"}[:n]...)
 				elems[pos] = "|" + sym + "|"
 				p := literalProbe{base: 10, forms: []string{"=(" + join(elems) + ")", "=|" + sym + "|"}}
-				if sym == "." && 3 <= n && pos == n-2 {
-					p.dirty = "barred-dot-in-list"
-				}
 				ps = append(ps, p)
 			}
 		}
+	}
+	// quote-like prefixes before every kind of object, at top level and inside a list
+	for _, pre := range []string{"'", "#'", "`"} {
+		for _, obj := range []string{"nil", "t", "12", "-3/4", "1.5", ":k", "|aB|", "''x"} {
+			ps = append(ps, literalProbe{base: 10, forms: []string{"=" + pre + obj, "=(a " + pre + obj + " b)"}})
+		}
+	}
+	// leaves whose proper prefixes are not readable on their own (what cl:read on a
+	// non-seekable stream meets): #\u0041 passes through #\u0, #b101/0111 through #b101/0
+	for _, leaf := range []string{`#\u0041`, `#\u00e9`, "#b101/0111", "#x1/0f", "#o17", `|a\tb|`, `"a\nb"`} {
+		ps = append(ps, literalProbe{base: 10, forms: []string{"=" + leaf, "=(k " + leaf + ")"}})
 	}
 	return
 }
 
 const pairProbes = 14 * 14
+const deepProbes = 3
 
-var probeN = pairProbes + len(literalProbes) + 300 // seed-independent block at the start of every case list
+// bigProbes: one token longer than the 64 KiB read block, of every kind and in every wrapping
+var bigProbes = []Big{
+	{Kind: "str", Len: 70000, Wrap: 0, Pad: 0}, {Kind: "str", Len: 66000, Wrap: 1, Pad: 3}, {Kind: "str", Len: 140000, Wrap: 3, Pad: 1},
+	{Kind: "sym", Len: 70000, Wrap: 0, Pad: 1}, {Kind: "sym", Len: 66000, Wrap: 2, Pad: 0}, {Kind: "sym", Len: 67000, Wrap: 1, Pad: 5},
+	{Kind: "pipe", Len: 70000, Wrap: 1, Pad: 2}, {Kind: "pipe", Len: 66500, Wrap: 2, Pad: 4},
+	{Kind: "int", Len: 66000, Wrap: 0, Pad: 0}, {Kind: "int", Len: 70000, Wrap: 1, Pad: 6},
+	{Kind: "bits", Len: 70000, Wrap: 3, Pad: 2}, {Kind: "bits", Len: 66000, Wrap: 0, Pad: 7},
+}
+
+var probeN = pairProbes + len(literalProbes) + deepProbes + len(bigProbes) + 300 // seed-independent block at the start of every case list
 
 var probeKinds = []string{"token", "string", "pipe", "char", "rint", "bits", "list", "dotted", "vector", "array", "complex", "quote", "function", "backquote"}
 
@@ -100,9 +119,6 @@ func gen(r *rand.Rand, i int, tier string) Case {
 	if dirty == "integer-point-nondecimal-base" && base == 10 {
 		base = fwPick(r, []int{2, 8, 16, 36})
 	}
-	if dirty == "digits-outside-read-base" && 10 <= base {
-		base = fwPick(r, []int{2, 8})
-	}
 	long := dirty == "" && r.IntN(100) < 4
 	var force []string
 	if i < len(probeKinds)*len(probeKinds) {
@@ -118,6 +134,22 @@ func gen(r *rand.Rand, i int, tier string) Case {
 		c := build(r, lp.base, ff, "", 0, 3, lp.forms)
 		c.Dirty = lp.dirty
 		return c
+	}
+	if j := i - pairProbes - len(literalProbes); 0 <= j && j < deepProbes {
+		return buildDeep(r, base, ff, []int{200, 260, 330}[j])
+	}
+	if j := i - pairProbes - len(literalProbes) - deepProbes; 0 <= j && j < len(bigProbes) {
+		bp := bigProbes[j]
+		return Case{Base: 10, FF: ff, Big: &bp}
+	}
+	if probeN <= i {
+		switch v := r.IntN(1000); {
+		case v < 6:
+			return buildDeep(r, base, ff, 200+r.IntN(150))
+		case v < 10:
+			return Case{Base: 10, FF: ff, Big: &Big{Kind: fwPick(r, []string{"str", "sym", "pipe", "int", "bits"}),
+				Len: 65000 + r.IntN(9000) + 66000*r.IntN(2), Wrap: r.IntN(4), Pad: r.IntN(40)}}
+		}
 	}
 	var c Case
 	for try := 0; try < 40; try++ {
@@ -505,6 +537,10 @@ func short(s string) string {
 }
 
 func exec(x *fw.Ctx, c Case) {
+	if c.Big != nil {
+		execBig(x, c)
+		return
+	}
 	m := &runner{x: x, c: &c, scope: newScope(c.Base, c.FF), seen: map[string]bool{}}
 	T := c.Text
 	n := len(T)
@@ -796,7 +832,7 @@ func (m *runner) deliveries(base outcome, states []cutInfo) []bool {
 	for k := 1; k < n; k++ {
 		st := states[k].state
 		x.Cover("cut:" + st)
-		for _, mode := range []int{0, mEOFLast} {
+		for _, mode := range []int{0, mEOFLast, mZero | mEOFLast} {
 			o := rdStream(m.scope, newPieces(T, []int{k}, mode))
 			m.nread++
 			if same(base, o) {
@@ -903,6 +939,33 @@ func (m *runner) deliveries(base outcome, states []cutInfo) []bool {
 		}
 		sets = append(sets, cuts)
 	}
+	// cuts that fall exactly between top-level objects: each one alone and all together
+	var between []int
+	for _, f := range c.Forms {
+		for _, k := range []int{f.S, f.E} {
+			if 0 < k && k < n && (len(between) == 0 || between[len(between)-1] < k) {
+				between = append(between, k)
+			}
+		}
+	}
+	if 0 < len(between) {
+		sets = append(sets, between)
+		for j, k := range between {
+			if j < 6 {
+				sets = append(sets, []int{k})
+			}
+		}
+		x.Cover("cuts-exactly-between-objects")
+	}
+	// cuts inside a multi-byte code point (string, |symbol|, #\ name, comment)
+	inRune := 0
+	for k := 1; k < n && inRune < 6; k++ {
+		if T[k]&0xC0 == 0x80 {
+			sets = append(sets, []int{k})
+			inRune++
+			x.Cover("cut-inside-code-point:" + states[k].state)
+		}
+	}
 	for j, cuts := range sets {
 		mode := j & 1
 		ref := rdStream(m.scope, newPieces(T, cuts, mode))
@@ -914,6 +977,12 @@ func (m *runner) deliveries(base outcome, states []cutInfo) []bool {
 		} else {
 			x.Cover("push:agrees-with-stream")
 		}
+		if ow := rdStream(m.scope, slip.NewInputStream(newPieces(T, cuts, mode))); !same(ref, ow) {
+			m.fail("delivery=stream via=rune-reader differs-from=plain", "%q cut at %v: plain reader %s, through slip.InputStream %s", T, cuts, ref, ow)
+		} else {
+			x.Cover("rune-reader:agrees-with-plain")
+		}
+		m.nread++
 		if !same(ref, oe) {
 			m.fail("delivery=each differs-from=stream", "%q cut at %v: ReadStream %s, ReadStreamEach %s", T, cuts, ref, oe)
 		} else {
@@ -1077,14 +1146,16 @@ func (m *runner) truncation(base outcome, states []cutInfo) {
 func init() {
 	fw.Register(fw.Spec[Case]{
 		ID: "C02",
-		Rule: "case = source text rendered from a generated token AST (lists, dotted pairs, strings and |symbols| with escapes and raw UTF-8, " +
-			"#\\ characters, integers/ratios/floats under *read-base* 2/8/10/16/36 and all four *read-default-float-format*, #b #o #x #nr, #( #nA #* #C #' ' ` , ,@, " +
-			"; and #| |# comments, @time tokens), <= 120 bytes (4% long texts <= 420), with its lexical segments, form ends and expected objects; " +
-			"the first block (every ordered pair of form kinds, literal probes for digits/letters at the edge of every *read-base* and barred punctuation symbols in every list position, 300 fixed-seed texts) is the same for every seed. Per case: ReadString vs expectation; ReadOne and read-from-string object+position per form; " +
-			"cl:read (seekable and byte-wise stream); ReadStream for EVERY single cut position under both EOF conventions, every fixed chunk size, " +
-			"every pair of cuts of short texts, 200 random multi-cuts, empty reads, slip.InputStream wrapper, push/each/one-form variants, padding to the natural 64 KiB block boundary; every proper prefix (truncation). " +
-			"About 12% of cases hold exactly one construct of the avoid set (dirty stream: quote-like prefix before a non-symbol atom, .5 floats, " +
-			"10. under a non-decimal base, decimal digits outside *read-base*, |.| in the dot position of a list); the clean stream avoids them and the constructs slip rejects loudly in every delivery (see meta note). Distinct = distinct case JSON; non-trivial = text of >= 3 bytes",
+		Rule: "case = source text rendered from a generated token AST (lists, dotted pairs incl. (a . nil), strings and |symbols| with escapes and raw UTF-8, " +
+			"#\\ characters, integers/ratios/floats under *read-base* 2/8/10/16/36 (incl. decimal digits outside the base) and all four *read-default-float-format*, " +
+			"#b #o #x #nr integers and ratios, #( #nA #* #C, the prefixes #' ' ` , ,@ before ANY kind of object, ; and #| |# comments (10% of texts comment-heavy), 8% CRLF texts, @time tokens), " +
+			"<= 120 bytes (4% long texts <= 420), with its lexical segments, form ends and expected objects. Special cases: one form nested 200..350 levels deep (lists, vectors, quoted lists) cut at every byte = every depth; " +
+			"texts around ONE token of 65..140 KB (string, symbol, |symbol|, integer, bit vector; bare, in a list, quoted, between other forms) read through the natural 64 KiB blocks, cuts around the boundary and inside the token, chunk sizes 1..100000. " +
+			"The first block (every ordered pair of form kinds; literal probes: digits/letters at the edge of every *read-base*, barred punctuation symbols in every list position, prefixes before every object kind, leaves whose prefixes are unreadable; 3 deep and 12 long-token cases; 300 fixed-seed texts) is the same for every seed. " +
+			"Per case: ReadString vs expectation (disagreements named by root cause); ReadOne and read-from-string object+position per form; cl:read (seekable and byte-wise stream); " +
+			"ReadStream for EVERY single cut position under three reader behaviours (EOF by a separate read, EOF together with the last data, 0-byte reads + EOF with data), every fixed chunk size, " +
+			"every pair of cuts of short texts, 200 random multi-cuts, slip.InputStream wrapper, push/each/one-form variants (incl. cuts exactly between top-level objects and inside multi-byte code points), padding to the natural 64 KiB block boundary; every proper prefix (truncation). " +
+			"About 12% of cases hold exactly one construct of the avoid set (dirty stream: .5 floats, 10. under a non-decimal base); the clean stream avoids them and the constructs slip rejects loudly in every delivery (see meta note). Distinct = distinct case JSON; non-trivial = text of >= 3 bytes",
 		N:     nCases,
 		Gen:   gen,
 		Exec:  exec,
@@ -1094,4 +1165,178 @@ func init() {
 			"slip keeps the case of symbol names (dialect); float literals have <= 6 significant digits so rounding is not in play",
 		},
 	})
+}
+
+// ---------------------------------------------------------------------
+// one token longer than the 64 KiB read block
+
+// bigText renders the text of a Big case and what its top-level forms denote.
+func bigText(b *Big) (text string, wants []string, tokStart, tokEnd int) {
+	var unit, lit, want string
+	rep := func(u string, n int) string { return strings.Repeat(u, n/len(u)+1) }
+	switch b.Kind {
+	case "str":
+		unit = `xy\n€z q\"`
+		lit = `"` + rep(unit, b.Len) + `"`
+		want = strconv.Quote(strings.Repeat("xy\n€z q\"", b.Len/len(unit)+1))
+	case "sym":
+		unit = "sym-bol*"
+		lit = rep(unit, b.Len)
+		want = "s:" + strconv.Quote(lit)
+	case "pipe":
+		unit = `Bar red\t€;(`
+		lit = "|" + rep(unit, b.Len) + "|"
+		want = "s:" + strconv.Quote(strings.Repeat("Bar red\t€;(", b.Len/len(unit)+1))
+	case "int":
+		unit = "1234567890"
+		lit = rep(unit, b.Len)
+		want = "I:" + lit
+	default: // bits
+		unit = "10"
+		lit = "#*" + rep(unit, b.Len)
+		want = lit
+	}
+	pad := strings.Repeat(" ", b.Pad)
+	switch b.Wrap {
+	case 1:
+		text = pad + "(alpha " + lit + " omega)"
+		tokStart = len(pad) + 7
+		wants = []string{`(s:"alpha" ` + want + ` s:"omega")`}
+	case 2:
+		text = pad + "'" + lit + "\n"
+		tokStart = len(pad) + 1
+		wants = []string{"{quote " + want + "}"}
+	case 3:
+		text = pad + `beta "s" ` + lit + " gamma ; end\n"
+		tokStart = len(pad) + 9
+		wants = []string{`s:"beta"`, `"s"`, want, `s:"gamma"`}
+	default:
+		text = pad + lit
+		tokStart = len(pad)
+		wants = []string{want}
+	}
+	tokEnd = tokStart + len(lit)
+	return
+}
+
+func execBig(x *fw.Ctx, c Case) {
+	b := c.Big
+	m := &runner{x: x, c: &c, scope: newScope(10, c.FF), seen: map[string]bool{}}
+	T, wants, ts, te := bigText(b)
+	n := len(T)
+	x.Cover("big-token:" + b.Kind)
+	x.Cover(fmt.Sprintf("big-token:block-boundaries-inside=%d", te/65536-ts/65536))
+	sig := func(what string) string { return "big-token kind=" + b.Kind + " " + what }
+	internalHook = func(o outcome) {
+		m.fail(sig("internal-fault"), "%d-byte %s token: a stream delivery ends in a Go runtime fault: %s", te-ts, b.Kind, o.err)
+	}
+	defer func() { internalHook = nil }()
+	brief := func(o outcome) string {
+		if o.err != nil {
+			return "<" + o.err.String() + ">"
+		}
+		var ss []string
+		for _, v := range o.vals {
+			if 60 < len(v) {
+				v = fmt.Sprintf("%s…%s (%d bytes, hash %x)", v[:24], v[len(v)-24:], len(v), fw.Hash64([]byte(v)))
+			}
+			ss = append(ss, v)
+		}
+		return "[" + strings.Join(ss, " | ") + "]"
+	}
+	base := rdString(m.scope, T)
+	x.Observe(map[string]any{"big": b, "bytes": n, "token-at": []int{ts, te}, "read-string": brief(base)})
+	if base.err != nil || len(base.approx) != len(wants) {
+		m.fail(sig("expect"), "text of %d bytes around a %d-byte %s token holds %d forms: ReadString gives %s", n, te-ts, b.Kind, len(wants), brief(base))
+		return
+	}
+	for i, w := range wants {
+		if base.approx[i] != w {
+			m.fail(sig("expect"), "form %d of the text around a %d-byte %s token: ReadString gives %s, expected a %d-byte rendering with hash %x", i, te-ts, b.Kind, brief(outcome{vals: base.approx[i : i+1]}), len(w), fw.Hash64([]byte(w)))
+			return
+		}
+	}
+	x.Cover("big-token:expectation-agrees")
+	judge := func(what string, o outcome) {
+		m.nread++
+		if same(base, o) {
+			x.Cover("big-token:" + what + ":agrees")
+			return
+		}
+		m.fail(sig("delivery="+what), "text of %d bytes, %s token at %d..%d: ReadString %s, %s gives %s", n, b.Kind, ts, te, brief(base), what, brief(o))
+	}
+	judge("read-bytes", rdBytes(m.scope, T))
+	judge("natural-blocks", rdStream(m.scope, bytes.NewReader([]byte(T))))
+	judge("natural-blocks", rdStream(m.scope, strings.NewReader(T)))
+	judge("natural-blocks-eof-with-data", rdStream(m.scope, newPieces(T, nil, mEOFLast)))
+	judge("natural-blocks-empty-reads", rdStream(m.scope, newPieces(T, nil, mZero)))
+	judge("rune-reader", rdStream(m.scope, slip.NewInputStream(bytes.NewReader([]byte(T)))))
+	judge("push", rdPush(m.scope, bytes.NewReader([]byte(T)), 8))
+	judge("each", rdEach(m.scope, bytes.NewReader([]byte(T))))
+	rng := rand.New(rand.NewPCG(uint64(b.Len)*31+uint64(b.Pad), 0xB16))
+	// single cuts around the boundary and the token ends, and random ones inside the token
+	cuts := []int{65535, 65536, 65537, ts, ts + 1, te - 1, te, (ts + te) / 2}
+	for j := 0; j < 8; j++ {
+		cuts = append(cuts, ts+1+rng.IntN(te-ts-1))
+	}
+	for j, k := range cuts {
+		if 0 < k && k < n {
+			judge("single-cut", rdStream(m.scope, newPieces(T, []int{k}, j%3)))
+		}
+	}
+	for j := 0; j < 6; j++ {
+		set := []int{1 + rng.IntN(n-1), 1 + rng.IntN(n-1), 1 + rng.IntN(n-1), ts + 1 + rng.IntN(te-ts-1)}
+		sort.Ints(set)
+		judge("multi-cut", rdStream(m.scope, newPieces(T, set, j%3)))
+	}
+	for j, s := range []int{1, 7, 1000, 4096, 65535, 65537, 100000} {
+		var cs []int
+		for k := s; k < n; k += s {
+			cs = append(cs, k)
+		}
+		judge("chunk-size", rdStream(m.scope, newPieces(T, cs, j%3)))
+	}
+	// one form from the stream: object and position as ReadOne
+	one := rdOne(m.scope, T)
+	so := rdStreamOne(m.scope, bytes.NewReader([]byte(T)))
+	m.nread += 2
+	if !same(one, so) || (one.err == nil && one.pos != so.pos) {
+		m.fail(sig("delivery=stream-one"), "%s token at %d..%d: ReadOne %s pos %d, ReadStream(one) %s pos %d", b.Kind, ts, te, brief(one), one.pos, brief(so), so.pos)
+	} else {
+		x.Cover("big-token:stream-one:agrees")
+	}
+	if one.err == nil && b.Wrap != 3 && len(one.vals) == 1 {
+		wantPos := te
+		if b.Wrap == 1 {
+			wantPos = n
+		}
+		if one.pos != wantPos {
+			m.fail(sig("readone-position"), "%s token at %d..%d, form ends at %d, ReadOne reports %d", b.Kind, ts, te, wantPos, one.pos)
+		}
+	}
+	res, err := callFn(m.scope, "read", slip.List{slip.NewStringStream([]byte(T))})
+	m.nread++
+	if err != nil || show(res, true) != base.vals[0] {
+		m.fail(sig("cl-read-seekable"), "(read <string stream>) on the text around a %d-byte %s token: %v %s", te-ts, b.Kind, err, brief(outcome{vals: []string{show(res, true)}}))
+	} else {
+		x.Cover("big-token:cl-read:agrees")
+	}
+	// truncation inside the token
+	for _, k := range []int{65536, (ts + te) / 2, te - 1} {
+		if k <= ts || te <= k {
+			continue
+		}
+		o := rdString(m.scope, T[:k])
+		m.nread++
+		delimited := b.Kind == "str" || b.Kind == "pipe" || b.Wrap == 1
+		switch {
+		case o.err != nil && o.err.Internal:
+			m.fail(sig("truncation got=internal"), "text cut at %d: %s", k, o.err)
+		case delimited && o.err == nil:
+			m.fail(sig("truncation want=incomplete got=value"), "text cut at %d inside the %s token is read as %s", k, b.Kind, brief(o))
+		default:
+			x.Cover("big-token:truncation-agrees")
+		}
+	}
+	x.CoverN("reads", m.nread)
 }
